@@ -183,6 +183,14 @@ func VH22b_device() {
 	for _, d := range devs {
 		d.Close()
 	}
+	// every socket - the devices' included - is closed: the forwarders have ended, nothing is left (C10)
+	verif.Quiesce()
+	for i := 0; i < 6 && verif.PendingTimers() > 0; i++ {
+		verif.FireTimer()
+	}
+	verif.Quiesce()
+	verif.AssertVM(verif.LiveGoroutines() == 0, "C10/device/goroutines-left-after-all-sockets-closed")
+	verif.AssertVM(verif.PendingCallbackTimers() == 0, "C10/device/stoppable-timer-left-after-all-sockets-closed")
 }
 
 // VH22c_inproc_mismatch: a dial from a socket of the wrong protocol is
